@@ -8,7 +8,8 @@
    `totals / counts` and `_compute_result(x, x2, n)` are index-aligned Series operations; the state components
    always carry the same keys, the model looks the other components up by key. *)
 From Coq Require Import List ZArith QArith Qcanon Bool Lia.
-From SZ Require Import DF.Frames DF.Agg.
+From SZ Require Import DF.Frames.
+From SZ Require Import DF.Agg.
 Import ListNotations.
 Local Open Scope Qc_scope.
 
